@@ -371,6 +371,11 @@ def _eval_case(case):
 # --------------------------------------------------------------------------------------------
 
 def _monitor(case: dict, res: dict) -> list[Violation]:
+    """Exactly the two sentences of the property: (1) every (old, new) a listener is given is a documented edge;
+    (2) a call that returned False / raised InvalidStateTransition wrote no field, cancelled no live task, removed no
+    file, notified nobody. (Plus: a call must end in True/False/InvalidStateTransition, not in another exception.)
+    Deliberately NOT flagged here: an allowed request that is refused, a method that moves along a documented edge to
+    a state it is not named after — those break `C03_table_complete` / `C03_table_sound` or the correspondence."""
     vs = []
     d = case['dir']
     log = res.get('log', [])
@@ -389,10 +394,6 @@ def _monitor(case: dict, res: dict) -> list[Violation]:
                                     f"{d}: listener observed {e['old']} -> {e['new']}, not an edge of the documented graph",
                                     case, observed=f"{e['old']}>{e['new']} (made by call {e['who']}: {meth_of.get(e['who'])})",
                                     required='an edge of Spec/TransferGraph.lean'))
-            elif e['who'] in meth_of and meth_of[e['who']] in METHODS and e['new'] != spec_target(d, meth_of[e['who']]):
-                vs.append(Violation('C03-wrong-target',
-                                    f"{d}: {meth_of[e['who']]}() moved the transfer {e['old']} -> {e['new']}",
-                                    case, observed=e['new'], required=spec_target(d, meth_of[e['who']])))
         if e['kind'] == 'ret' and e['code'] in ('F', 'R'):
             cid = e['who']
             mine = [x for x in log if x['who'] == cid and x is not e and
@@ -410,11 +411,6 @@ def _monitor(case: dict, res: dict) -> list[Violation]:
             elif i > 0 and log[i - 1]['fx'] != e['fx']:
                 vs.append(Violation('C03-refused-with-effect',
                                     f"{d}: the local file changed while call {cid} ({meth_of.get(cid)}) was refused", case))
-            m = meth_of.get(cid)
-            if m in METHODS and (e['cur'], spec_target(d, m)) in SPEC_EDGES[d] and not mine:
-                vs.append(Violation('C03-allowed-request-refused',
-                                    f"{d}: {m}() was refused in state {e['cur']} although the documented graph has "
-                                    f"{e['cur']} -> {spec_target(d, m)}", case, observed=e['code'], required='T'))
         if e['kind'] == 'ret' and e['code'][0] in ('E', '?'):
             vs.append(Violation('C03-impl-error', f"call {e['who']} ({meth_of.get(e['who'])}) ended with {e['code']}", case))
     return vs
@@ -658,8 +654,8 @@ class C03(Property):
         cases = [WITNESS] + _corpus_cases() + _malformed_cases()
         cases += _pair_cases()
         cases += _pair_burst_cases(rng)
-        cases += _triple_cases(rng, None if tier == 'thorough' else 400 * widen)
-        n = (400 if tier == 'quick' else 6000) * widen
+        cases += _triple_cases(rng, None if tier == 'thorough' else 1500 * widen)
+        n = (1500 if tier == 'quick' else 8000) * widen
         cases += [_random_case(rng, rng.choice([3, 5, 8])) for _ in range(n)]
         return cases
 
